@@ -13,14 +13,20 @@ the favourite flag -/
 structure Doc where
   content : Nat
   fav : Bool
+  kind : Nat := 0
+  tags : List Nat := []              -- a set in the code: a tag counts once per document
 deriving DecidableEq, Repr
 
 structure Index where
   docs : List ((Nat × Nat) × Doc)      -- key: (folder, secret)
   vaults : Nat → Nat                   -- per-folder counter
   favorites : Nat
+  kinds : Nat → Nat := fun _ => 0      -- per-kind counter; documents of the archive folder are not counted
+  tags : Nat → Nat := fun _ => 0       -- per-tag counter
+  archive : Option Nat := none         -- the archive folder, when the account has one
 
 def Index.empty : Index := { docs := [], vaults := fun _ => 0, favorites := 0 }
+
 
 def findIn : List ((Nat × Nat) × Doc) → Nat × Nat → Option Doc
   | [], _ => none
@@ -31,18 +37,24 @@ def Index.find (ix : Index) (f s : Nat) : Option Doc := findIn ix.docs (f, s)
 /-- `prepare` + `commit`: no duplicate for the same (folder, secret) -/
 def Index.add (ix : Index) (f s : Nat) (d : Doc) : Index :=
   if (ix.find f s).isSome then ix else
-  { docs := ix.docs ++ [((f, s), d)],
+  { ix with
+    docs := ix.docs ++ [((f, s), d)],
     vaults := fun x => if x = f then ix.vaults f + 1 else ix.vaults x,
-    favorites := if d.fav then ix.favorites + 1 else ix.favorites }
+    favorites := if d.fav then ix.favorites + 1 else ix.favorites,
+    kinds := fun k => if k = d.kind ∧ ix.archive ≠ some f then ix.kinds k + 1 else ix.kinds k,   -- `is_archived` guard
+    tags := fun t => if t ∈ d.tags then ix.tags t + 1 else ix.tags t }
 
 /-- `remove`: only a document that was in the index changes the counters -/
 def Index.remove (ix : Index) (f s : Nat) : Index :=
   match ix.find f s with
   | none => ix
   | some d =>
-    { docs := ix.docs.filter (·.1 ≠ (f, s)),
+    { ix with
+      docs := ix.docs.filter (·.1 ≠ (f, s)),
       vaults := fun x => if x = f then ix.vaults f - 1 else ix.vaults x,
-      favorites := if d.fav then ix.favorites - 1 else ix.favorites }
+      favorites := if d.fav then ix.favorites - 1 else ix.favorites,
+      kinds := fun k => if k = d.kind ∧ ix.archive ≠ some f then ix.kinds k - 1 else ix.kinds k,
+      tags := fun t => if t ∈ d.tags then ix.tags t - 1 else ix.tags t }
 
 def Index.update (ix : Index) (f s : Nat) (d : Doc) : Index := (ix.remove f s).add f s d
 
